@@ -203,7 +203,8 @@ def resHeadersLoop : Nat → Bool → Conn → R
               resFlushHeader c >>? fun c =>
               let (d, nb) := c.out.peekSet
               let c := { c with out := d }
-              let folding := match nb with | some b => isFoldingChar b | none => isFoldingCharNeg1
+              -- no byte available yet (-1): the header stays pending, as on the request side (S15, repaired in /repo)
+              let folding := match nb with | some b => isFoldingChar b | none => true
               if !folding then
                 let (c, rc) := processResponseHeader line c
                 if rc != .ok then (c, .error) else (c, .ok)
@@ -476,10 +477,13 @@ def resFinalize (c : Conn) : R :=
       let (c, rc) := resProcessBodyData (some data) c
       ({ c with out := c.out.clearBuffer }, rc)
     else
-      -- un-read the probed line (the buffer copy, if any, is left behind)
+      -- un-read the probed line; only the part of it that arrived with earlier chunks stays buffered
+      -- (S14, repaired in /repo: the whole line used to stay in out_buf and was then read twice)
       let rd : Int := if c.out.read < (data.length : Int) then 0 else c.out.read - (data.length : Int)
+      let keep : Nat := if c.out.read < (data.length : Int) then data.length - c.out.read.toNat else 0
+      let buf := c.out.buf.map (fun b => b.take keep)
       let cs := if rd < c.out.consume then rd else c.out.consume
-      txStateResponseCompleteEx cfg uid { c with out := { c.out with read := rd, consume := cs } }
+      txStateResponseCompleteEx cfg uid { c with out := { c.out with read := rd, consume := cs, buf := buf } }
 
 def resStateFn (c : Conn) : R :=
   match c.outState with
